@@ -213,7 +213,7 @@ func dumpsOf(tok string) map[string]string {
 const b64Alphabet = "ABCDEFGHIJKLMNOPQRSTUVWXYZabcdefghijklmnopqrstuvwxyz0123456789-_"
 
 func runC01(c *Ctx) {
-	c.Res.Rule = "tokens: valid tokens of 7 kinds x {v2 Encode, v1compat Encode}; single-character substitutions / insertions / deletions in every segment (sampled in quick, every position of a token pool in thorough); segment splices between tokens of different issuers/kinds; payloads re-signed by a foreign key keeping iss; wrong-layout signatures both ways; header rewrites; random strings. Every token goes through Decode, DecodeGeneric and the six typed decoders. Oracle: any acceptance must verify (crypto/ed25519 + the harness's own nkey decoder) under the REPORTED issuer over exactly the text the statement names; an accepted alteration must have identical content. non-trivial = distinct tokens that reached signature verification or were accepted."
+	c.Res.Rule = "tokens: valid tokens of 7 kinds x {v2 Encode, v1compat Encode}; single-character substitutions / insertions / deletions in every segment (sampled in quick, every position of a token pool in thorough); alterations that leave the base64url alphabet (padding, +, /, line breaks, blanks in every segment); segment splices between tokens of different issuers/kinds; payloads re-signed by a foreign key keeping iss; wrong-layout signatures both ways; header rewrites; random strings. Every token goes through Decode, DecodeGeneric and the six typed decoders. Oracle: any acceptance must verify (crypto/ed25519 + the harness's own nkey decoder) under the REPORTED issuer over exactly the text the statement names; an accepted alteration must have identical content. non-trivial = distinct tokens that reached signature verification or were accepted."
 	type vt struct{ tok, kind, layout string }
 	var pool []vt
 	for round := 0; round < c.N(2, 6); round++ {
@@ -280,6 +280,14 @@ func runC01(c *Ctx) {
 				try(off+len(s)-1, 2)
 				off += len(s) + 1
 			}
+		}
+	}
+	// alterations that leave the base64url alphabet (padding, '+', '/', line breaks, blanks)
+	for _, p := range pool {
+		orig := dumpsOf(p.tok)
+		ts, hows := alphabetEdits(p.tok)
+		for i, t := range ts {
+			checkToken(c, t, c01Replay{t, p.tok, hows[i]}, orig)
 		}
 	}
 	// splices
